@@ -229,7 +229,7 @@ func propTable() map[string]PropSpec {
 		ID: "C15", Pkg: discPkg, NativeDir: "discovery",
 		Quick:    []HarnessRun{{Entry: "VHash", Args: []int{0}, Subst: hashSubst, Unwind: 40, Cosim: 2}, {Entry: "VHash", Args: []int{2}, Subst: hashSubst, Unwind: 40, Cosim: 2}, {Entry: "VHashDedupe", Subst: hashSubst, Unwind: 40, Cosim: 2}},
 		Thorough: []HarnessRun{{Entry: "VHash", Args: []int{0}, Subst: hashSubst, Unwind: 40, Cosim: 4}, {Entry: "VHash", Args: []int{1}, Subst: hashSubst, Unwind: 40, Cosim: 2}, {Entry: "VHash", Args: []int{2}, Subst: hashSubst, Unwind: 40, Cosim: 3}, {Entry: "VHashDedupe", Subst: hashSubst, Unwind: 40, Cosim: 4}},
-		Required: []string{"hash.two.runs", "hash.sensitive", "hash.sensitive.query", "dedupe.same", "dedupe.two", "hash.end"},
+		Required: []string{"hash.two.runs", "hash.sensitive", "hash.sensitive.query", "hash.sensitive.boundary", "dedupe.same", "dedupe.two", "hash.end"},
 		Prefixes: []string{"C15."},
 		Bounds:   "targetsFromGroup / populateLabels / targetHash / labelsWithoutConfigParam / supportInvalidLabelName (and labels.New, labels.Builder, sort.Sort, scrape.NewTarget / Target.URL from source) on a group of 1 target (dedupe: 2 targets) with the labels __address__ (concrete, with and without port), foo and an invalid name \"bad-name\" with symbolic values, an optional __meta_ label with a symbolic value, every split of the labels between group and target and every map-iteration order; no relabel rules; sensitivity: two targets differing only in the (symbolic, different) value of one surviving label - ordinary (foo) or reserved but neither __meta_ nor URL-forming (__tmp_x, __scrape_interval__) - can get different hashes (satisfiability query with the hash functions uninterpreted: holds exactly when the label value reaches the hash input), and two jobs whose params differ only in the second value of a multi-valued parameter (carried by no label: the URL query must reach the hash)",
 		Assume:   []string{"xxhash (labels.Labels.Hash) and FNV-64a are uninterpreted functions of exactly what is fed to them (label names and values in order; the formatted label hash; the URL string): equal inputs give equal hashes, nothing is assumed about different inputs", "relabel.Process is the identity (the job has no relabel rules); net.SplitHostPort, CheckTargetAddress and the label-name / label-value validity tests run on concrete strings", "symbolic label values range over non-empty valid UTF-8 strings"},
